@@ -105,6 +105,8 @@ def runner(pid, prop, tier, seed, scratch, replay=None):
                                           case=props.summarise_case(r.case)))
             if r.hv[0] in ("hang", "crash", "panic"):
                 dist["impl_" + r.hv[0]] += 1
+            if kind == "schedules" and r.m is not None and ci == idxs[0]:
+                dist[props.hyps_key(r.m)] += 1
         dist["%s:%d_outcomes" % (kind, len(outs))] += 1
         if len(outs) > 1:
             classes = sorted(outs, key=lambda o: -len(outs[o]))
